@@ -33,10 +33,17 @@ TOpt == [omitnil |-> Case.o.omitnil, omitempty |-> Case.o.omitempty, sort |-> Ca
 \* The JSON reader of TLC refuses documents nested deeper than 255, so the harness writes a chain of single-child
 \* containers as one node [t |-> "wrap", wk |-> <<0 = array | 1 = object ...>>, ks |-> <<key ...>>, inner |-> tree]
 \* (outermost first); Expand restores the tree.
-RECURSIVE Expand(_), WrapFrom(_, _, _)
-WrapFrom(e, i, x) == IF i = 0 THEN x
-                     ELSE WrapFrom(e, i - 1, IF e.wk[i] = 0 THEN [t |-> "arr", v |-> <<x>>] ELSE [t |-> "obj", k |-> <<e.ks[i]>>, v |-> <<x>>])
-Expand(e) == CASE e.t = "wrap" -> WrapFrom(e, Len(e.wk), Expand(e.inner))
+RECURSIVE Expand(_), ChainFrom(_, _, _)
+\* a deep spine is written by the harness as one node [t |-> "chain", lv |-> <<levels, outermost first>>, inner |-> tree]; a level is
+\* [k |-> 0 array | 1 object, pre, post |-> siblings before / after the spine member, key, pk, qk |-> the keys]
+ChainFrom(e, i, x) ==
+  IF i = 0 THEN x
+  ELSE LET l == e.lv[i]
+           pre == [j \in 1..Len(l.pre) |-> Expand(l.pre[j])]
+           post == [j \in 1..Len(l.post) |-> Expand(l.post[j])]
+       IN ChainFrom(e, i - 1, IF l.k = 0 THEN [t |-> "arr", v |-> (pre \o <<x>>) \o post]
+                                ELSE [t |-> "obj", k |-> (l.pk \o <<l.key>>) \o l.qk, v |-> (pre \o <<x>>) \o post])
+Expand(e) == CASE e.t = "chain" -> ChainFrom(e, Len(e.lv), Expand(e.inner))
                [] e.t = "arr" -> [t |-> "arr", v |-> [i \in 1..Len(e.v) |-> Expand(e.v[i])]]
                [] e.t = "obj" -> [t |-> "obj", k |-> e.k, v |-> [i \in 1..Len(e.v) |-> Expand(e.v[i])]]
                [] OTHER -> e
